@@ -44,7 +44,7 @@ EXE = "drv_c11"
 GEN_MODULES = ["Combine"]
 RULE = ("one seeded PRNG; a family = one base psbt (vendored BIP174/370/371/373/375 vectors and built ones) whose "
         "mergeable fields are partitioned over k<=5 copies; every permutation and every bracketing for k<=4 "
-        "(k=5: all in thorough, sampled in quick); non-trivial = the implementation did not refuse; distinct = "
+        "in thorough, k<=3 in quick (above: sampled); non-trivial = the implementation did not refuse; distinct = "
         "distinct (stream, op line without its replay payload)")
 TRUSTED = ["hand-written model Model/C11/{Combine,Roles}.lean tied by correspondence; field lists and rules are generated",
            "txid modelled as injective (the model compares unsigned transactions, not hashes)",
@@ -551,8 +551,8 @@ def exprs_for(rng, k, ctx):
         sel = [(p, t) for p in perms for t in trees(p)]
         sel = rng.sample(sel, 60)
     else:
-        allp = rng.sample(perms, 12 if ctx.tier == "quick" else 60)
-        sel = [(p, t) for p in allp for t in rng.sample(trees(p), 4 if ctx.tier == "quick" else 12)]
+        allp = rng.sample(perms, 12 if ctx.tier == "quick" else 30)
+        sel = [(p, t) for p in allp for t in rng.sample(trees(p), 4 if ctx.tier == "quick" else 6)]
     out = []
     for _, t in sel:
         out.append(t if isinstance(t, tuple) else (t,))
@@ -672,13 +672,13 @@ def tamperings(rng, req: Psbt, ans: Psbt):
 def run(ctx):
     rng = ctx.rng
     fam_lines, conf_lines, tx_lines, conv_lines, sig_lines = [], [], [], [], []
-    n_fam = ctx.n(40, 1000)
+    n_fam = ctx.n(40, 300)
     for _ in range(n_fam):
         base, ps = family(rng, ctx)
         toks = [render(p) for p in ps]
         exprs = exprs_for(rng, len(ps), ctx)
         ctx.check("combine.orders", {"payload": payload({"psbts": ps, "exprs": exprs}), "k": len(ps)})
-        keep = exprs if ctx.tier == "thorough" else rng.sample(exprs, min(len(exprs), 24))
+        keep = rng.sample(exprs, min(len(exprs), 24 if ctx.tier == "quick" else 60))
         for t in keep:
             fam_lines.append(combine_line(t, ps, toks))
         ctx.check("combine.idempotent", {"payload": payload({"psbt": rng.choice(ps)})})
@@ -711,7 +711,7 @@ def run(ctx):
     ctx.correspond("psbt.convert", EXE, [(ln, impl(ln)) for ln in conv_lines], key="psbt.convert")
 
     # ---- role sequences (length <= 6) and tamperings of a signer's answer
-    for _ in range(ctx.n(25, 400)):
+    for _ in range(ctx.n(25, 300)):
         p = built(rng, rng.choice([0, 2]))
         roles = []
         for _ in range(rng.randrange(1, 7)):
@@ -721,7 +721,7 @@ def run(ctx):
             roles.append((r, arg))
         ctx.count("roles", ">".join(r for r, _ in roles)[:40])
         ctx.check("roles.identity-noalias", {"payload": payload({"psbt": p, "roles": roles}), "roles": [r for r, _ in roles]})
-    for _ in range(ctx.n(6, 60)):
+    for _ in range(ctx.n(6, 40)):
         req = built(rng, rng.choice([0, 2]))
         if rng.random() < 0.5:
             req = sign(req, KM([PRV[0]]))[0]
